@@ -216,6 +216,11 @@ class HttpProtocolHandler(BaseTcpServerHandler[HttpClientConnection]):
                 teardown = await super().handle_writables(writables)
                 if teardown:
                     return True
+            except ssl.SSLWantWriteError:   # Try again later
+                logger.warning(
+                    'SSLWantWriteError while trying to flush to client, will retry',
+                )
+                return False
             except BrokenPipeError:
                 logger.warning(     # pragma: no cover
                     'BrokenPipeError when flushing buffer for client',
